@@ -183,12 +183,51 @@ func walk(ns []*node, f func(*node)) {
 	}
 }
 
-// mutations calls f with every hostile input derived from encoding e. classes selects the mutation families.
-func mutations(reg *registry, e []byte, items []repl, f func(class string, in []byte)) (parsed bool) {
-	for i := 0; i < len(e); i++ {
+// positions returns the byte offsets at which the encoding is truncated / substituted. reduce=false: every offset.
+// reduce=true: inside the payload of a string item longer than 20 bytes only the first two and the last payload byte
+// (the decoders copy such payloads without looking at them; every header byte, every short item and every byte of a
+// type prefix is kept).
+func positions(e []byte, top []*node, reduce bool) []int {
+	if !reduce || top == nil {
+		out := make([]int, len(e))
+		for i := range out {
+			out[i] = i
+		}
+		return out
+	}
+	keep := make([]bool, len(e))
+	for i := range keep {
+		keep[i] = true
+	}
+	walk(top, func(n *node) {
+		if n.kind == 1 && n.size > 20 {
+			lo, hi := n.off+n.hdr, n.end()
+			for i := lo + 2; i < hi-1; i++ {
+				keep[i] = false
+			}
+		}
+	})
+	var out []int
+	for i, k := range keep {
+		if k {
+			out = append(out, i)
+		}
+	}
+	return out
+}
+
+// mutations calls f with every hostile input derived from encoding e.
+func mutations(reg *registry, e []byte, items []repl, reduce bool, f func(class string, in []byte)) (parsed bool, skipped int) {
+	top, ok := parseItems(reg, e)
+	if !ok {
+		top = nil
+	}
+	pos := positions(e, top, reduce)
+	skipped = len(e) - len(pos)
+	for _, i := range pos {
 		f("trunc", e[:i])
 	}
-	for off := 0; off < len(e); off++ {
+	for _, off := range pos {
 		for _, b := range substSet {
 			if e[off] == b {
 				continue
@@ -198,9 +237,8 @@ func mutations(reg *registry, e []byte, items []repl, f func(class string, in []
 			f("byte", m)
 		}
 	}
-	top, ok := parseItems(reg, e)
 	if !ok {
-		return false
+		return false, skipped
 	}
 	walk(top, func(n *node) {
 		if n.kind == 3 {
@@ -222,7 +260,7 @@ func mutations(reg *registry, e []byte, items []repl, f func(class string, in []
 		self := e[n.off:n.end()]
 		f("item", rebuild(e, n, append(append([]byte{}, self...), self...)))
 	})
-	return true
+	return true, skipped
 }
 
 // shortStrings calls f with every byte string of length <= 3 over substSet.
